@@ -48,11 +48,13 @@ def confirm(sid, wt, outdir):
     res["tests_passed_count"] = passed
     ok_with, log_with = run_demo(wt, outdir, env)
     res["demo_passes_with_change"] = ok_with
-    sh("git stash", cwd=wt)
+    # (not `git stash`: the stash is shared by all worktrees of a repository)
+    patch = os.path.join(outdir, "patch.diff")
+    sh(f"git apply -R {patch}", cwd=wt)
     try:
         ok_without, log_without = run_demo(wt, outdir, env)
     finally:
-        sh("git stash pop", cwd=wt)
+        sh(f"git apply {patch}", cwd=wt)
     res["demo_passes_without_change"] = ok_without
     res["confirmed"] = bool(res["tests_pass_with_change"] and ok_with is False and ok_without is True)
     print(json.dumps(res, indent=1))
